@@ -54,7 +54,7 @@ def gen_program(rng, sw):
     shape = sw["shape"]
     funcs = []
     if shape == "chain":
-        nm = rng.randint(2, 5)
+        nm = rng.randint(2, 7 if sw.get("tier") == "thorough" else 5)
         nf = nm
     elif shape == "diamond":
         nm, nf = 4, 4
@@ -62,8 +62,8 @@ def gen_program(rng, sw):
         nm = rng.randint(3, 5)
         nf = nm
     else:
-        nf = rng.randint(3, 8)
-        nm = rng.randint(2, min(5, nf))
+        nf = rng.randint(3, 12 if sw.get("tier") == "thorough" else 8)
+        nm = rng.randint(2, min(7 if sw.get("tier") == "thorough" else 5, nf))
     # non-exported, overloaded helper families: part of PI like any other function, so a
     # partition may put the overloads of one family into different modules
     SIGS = [[["x", "int"]], [["x", "float"]], [["x", "int"], ["y", "int"]], [["x", "int"], ["y", "float"]]]
@@ -149,6 +149,7 @@ def gen_scenario(seed, tier="quick"):
         "links": swr.choice([1, 2, 2, 3]),
         "helpers": swr.random() < 0.4,
         "free_helpers": swr.random() < 0.3,
+        "tier": tier,
     }
     if sw["free_helpers"] and sw["shape"] == "random" and swr.random() < 0.25:
         sw["cli"] = True
